@@ -63,9 +63,17 @@ type callObs struct {
 	done chan struct{}
 }
 
-const stepWait = 3 * time.Second
-
 var hangsSeen int32
+
+// stepWait bounds the wait for a goroutine to reach its next hold point; once hangs were seen
+// repeatedly in this process the remaining scenarios use a short bound.
+var stepWait = 3 * time.Second
+
+func noteHang() {
+	if atomic.AddInt32(&hangsSeen, 1) >= 2 {
+		stepWait = 300 * time.Millisecond
+	}
+}
 
 func drvSess(args []string) int {
 	fs := flag.NewFlagSet("sess", flag.ExitOnError)
@@ -169,6 +177,7 @@ func (r *sessRun) run(n int, seed int64) {
 		// harness-side point of the application handler
 	} else {
 		r.g.Record(false)
+		r.g.RecordOnly("read.frame", "close.closed", "close.waitedCtx", "rd.loaded")
 		r.g.Jitter(seed*7919+int64(n), 3)
 		for _, h := range sc.Holds {
 			r.g.Hold(r.key(h))
@@ -197,6 +206,7 @@ func (r *sessRun) run(n int, seed int64) {
 			ok := r.strictStep(act, id)
 			if !ok {
 				r.driftf("step %d %s(%s): thread did not reach the expected point", i, act, id)
+				noteHang()
 				break
 			}
 			r.compare(i, act, st)
@@ -830,7 +840,11 @@ func (r *sessRun) quiesce() {
 		}
 		return true
 	}
-	ok := WaitUntil(2*time.Second, settled)
+	first := 2 * time.Second
+	if atomic.LoadInt32(&hangsSeen) >= 2 {
+		first = 300 * time.Millisecond
+	}
+	ok := WaitUntil(first, settled)
 	var blocked []string
 	if !ok {
 		// second stage: wait longer, then classify (once hangs have been seen twice in this
@@ -841,7 +855,7 @@ func (r *sessRun) quiesce() {
 		}
 		ok = WaitUntil(long, settled)
 		if !ok {
-			atomic.AddInt32(&hangsSeen, 1)
+			noteHang()
 			blocked = Blocked("erpc/v6.(*session)", "erpc/v6.(*handlerCtx)", "erpc/v6.(*callCmd)")
 		}
 	}
